@@ -35,9 +35,12 @@ ASSUMPTIONS = [
 ]
 EXPLANATION = ("Models: Model/Retro.v (wrappers, PlatePermutation, SampleSegregating, FixedSize, OptimalSize, NPlatePerCellLine, "
                "MergeMin, MergeTopBottom, Ensemble, Plate.merge), Model/Pairwise.v, Model/Holdout.v, Model/RetroInit.v (SparseCover, "
-               "combination filter).  All labelling logic is modelled (shared with C13); the conservation theorems are proved through "
-               "generic lemmas that hold for any labels / any selection vector.  Not modelled: ids (only their order), logging, "
-               "copy semantics of numpy arrays (in-place Plate.merge is modelled functionally).")
+               "combination filter).  Every shipped class is covered; no statement is partial.  All labelling logic is modelled (shared "
+               "with C13) and the conservation theorems are proved through generic lemmas that hold for any labels / any selection "
+               "vector, so they hold for every oracle answer; only the per-plate hold-out counts need the numpy choice contract.  "
+               "The models of Pairwise's last choice and of SparseCover refuse an answer outside the offered array (state-dependent "
+               "contract, tag 94).  Not modelled: ids (only their order), logging, numpy copy semantics (in-place Plate.merge is "
+               "modelled functionally).")
 
 
 def gen(rng, tier):
@@ -60,8 +63,7 @@ def gen(rng, tier):
     for _ in range(150 * k):
         cls = rng.choice(["mergemin", "mergetb", "fixed", "optimal", "nplate", "ensemble"])
         sd = L.gen_screen(rng, style=rng.choice(["one_sample_plates"] * 4 + ["mixed"]) if cls in ("mergemin", "mergetb", "nplate", "ensemble") else None)
-        params = dict(min_size=rng.choice([0, 1, 2, 3, 4, 5, 6, 8, 12]), n_iter=rng.choice([0, 1, 1, 2, 3, -1]),
-                      size=rng.choice([0, 1, 2, 2, 3, 3, 4, 5, 7, -1, 50]), min_plates=rng.choice([0, 1, 2, 2, 3]))
+        params = L.smoother_params(rng, sd)
         yield dict(kind="smooth", cls=cls, params=params, screen=sd, seed=rng.randrange(10 ** 6))
     for _ in range(110 * k):
         fr = rng.choice([0.0, 0.1, 0.25, 0.5, 1.0, 0.0, 0.1, 0.25, 0.5, 1.0, 0.75, 0.3, 1 / 3, round(rng.random(), 3), rng.random(), 1.5, -0.25])
